@@ -475,7 +475,7 @@ def graphql_signature(case: dict, gcat: dict, o: int, kind: str) -> str:
     kinds = sorted({_kind(gcat["filters"][f - 1]) for f in case["incl"] + case["excl"]})
     if kind == "raised":
         # attribute kinds present in every raising element are what the failure hinges on; the caller intersects them
-        return "C07:graphql-%s:selection:raised:%s" % (case["door"], "+".join(kinds))
+        return "C07:graphql:selection:raised:%s" % "+".join(kinds)
     if kind in ("leak", "dropped"):
         return "C07:graphql-%s:selection:%s" % (case["door"], kind)
     return "C07:graphql-%s:stat:%s" % (case["door"], kind)
@@ -897,7 +897,9 @@ def run(ctx: Ctx) -> Outcome:
         for o, kd in sorted(graphql_disagreements(c, ob)):
             sig = graphql_signature(c, gcat, o, kd)
             if kd == "raised":
-                sig = "C07:graphql-%s:selection:raised:%s" % (c["door"], "+".join(sorted(common_kinds.get(c["door"], []))) or "any")
+                # the failure is in evaluating the filter, whatever door built it: one signature
+                allk = set.intersection(*common_kinds.values()) if common_kinds else set()
+                sig = "C07:graphql:selection:raised:%s" % ("+".join(sorted(allk)) or "any")
             per_sig[sig] = per_sig.get(sig, 0) + 1
             if per_sig[sig] > 10:
                 continue
